@@ -237,6 +237,7 @@ impl Check for C08 {
             if run.res.deadlock.is_some() && honest.iter().filter(|h| matches!(run.res.ends[**h], End::Blocked)).count() >= 2 {
                 out.count("stall_among_live_peers", 1);
             }
+            count_honest_errs(&mut out, &spec, &run);
             let v = c08_oracle(&spec, &run, r.steps, &r.alloc);
             if out.samples.is_empty() && i % 97 == 0 {
                 out.samples.push(json!({"configuration": cfg.base.sample(), "corrupted": cfg.c, "fault": describe_fault(&spec),
